@@ -376,6 +376,9 @@ func runC10(p *eng.Prog, r *eng.Report, tier string) {
 				which := "stream error"
 				if sel, ok := ast.Unparen(wc.Fun).(*ast.SelectorExpr); ok {
 					which = se.Norm(sel.X, nil)
+					if strings.HasPrefix(which, "local:") {
+						which = "a local " + eng.TypeStr(se.Info().TypeOf(sel.X))
+					}
 				}
 				c.r.Check("C10.5", se, "flush between WriteXML of "+which+" and the closing tag", "O: the encoder is flushed after the stream error and before closeSession writes the closing tag to the raw connection (otherwise the error never reaches the peer)", wc.Pos(), g.MustPassBefore(g.After(wp), pt, isFlush, nil), "closeSession is reachable after WriteXML without flushing the session encoder: the stream error stays in the encoder's buffer behind </stream:stream>")
 			}
